@@ -246,8 +246,8 @@ def hyp_phase(ctx):
 
 def phases(tier):
     if tier == "quick":
-        return [Phase("hyp", hyp_phase, shards=8, params={"max_examples": 500, "budget_s": 70})]
-    return [Phase("hyp", hyp_phase, shards=16, params={"max_examples": 4000, "budget_s": 540})]
+        return [Phase("hyp", hyp_phase, shards=8, params={"max_examples": 500, "budget_s": 70, "crash_journal": True, "crash_is_violation": True})]
+    return [Phase("hyp", hyp_phase, shards=16, params={"max_examples": 4000, "budget_s": 540, "crash_journal": True, "crash_is_violation": True})]
 
 
 CHECKS = {"fba": check_case}
